@@ -392,6 +392,8 @@ func runWorker(chk *Check, tier, spec string) int {
 		}
 	}
 	lastFlush := time.Now()
+	marker := parts[4][:strings.LastIndex(parts[4], "-")] + ".viol" // one marker per (check, family)
+	markerWritten := false
 	var buf [8]byte
 	first := from
 	for first%n != k {
@@ -413,6 +415,19 @@ func runWorker(chk *Check, tier, spec string) int {
 			r.Samples = append(r.Samples, f.Describe(i))
 		}
 		cnt++
+		// once any worker of this family has found a violation, the family is decided: give the
+		// others a grace period to find more signatures, then stop (reported as a cap)
+		if len(r.Violations) > 0 && !markerWritten {
+			markerWritten = true
+			if _, err := os.Stat(marker); err != nil {
+				os.WriteFile(marker, []byte("x"), 0o644)
+			}
+		}
+		if st, err := os.Stat(marker); err == nil && time.Since(st.ModTime()) > 150*time.Second {
+			cur.Store(-1)
+			flush("deadline", i)
+			return 0
+		}
 		if cnt%16 == 0 {
 			now := time.Now()
 			if deadlineNs > 0 && now.UnixNano() > deadlineNs {
@@ -500,6 +515,8 @@ func (p *Parent) runFamily(f *Family) {
 		if nw < 1 {
 			nw = 1
 		}
+		os.MkdirAll(filepath.Join(VerifDir, ".work", "prog"), 0o755)
+		os.Remove(filepath.Join(VerifDir, ".work", "prog", fmt.Sprintf("%s-%s.viol", p.Check.ID, f.Name)))
 		var wg sync.WaitGroup
 		var mu sync.Mutex
 		for k := 0; k < nw; k++ {
